@@ -314,6 +314,21 @@ fn run_singles(cx: &mut CaseCx, case: &Value) {
   let lo = case["lo"].as_u64().unwrap() as u8;
   for a in lo..=lo.saturating_add(15) {
     let mut s = c.initial.clone();
+    // transcripts recorded BEFORE the puncture must not become keys to the punctured tag once the key state is
+    // known: a proof whose nonce is a function of the key state and the request (the identical request on the
+    // identical state gives the identical proof) lets whoever holds the exported state recompute the nonce r and
+    // solve s = r - c*k for the tag key k. The nonce must come from fresh entropy.
+    if a % 16 == 0 {
+      let (probe, _r) = pp::Client::blind(b"recorded before the puncture");
+      let p1 = guard(|| s.eval(&probe, a, true).ok().and_then(|e| e.proof.and_then(|p| p.serialize_to_bincode().ok()))).ok().flatten();
+      let p2 = guard(|| s.eval(&probe, a, true).ok().and_then(|e| e.proof.and_then(|p| p.serialize_to_bincode().ok()))).ok().flatten();
+      cx.eval();
+      if p1.is_some() && p1 == p2 {
+        cx.viol("C11/proof-nonce-derivable-from-key-state", format!("the identical request for tag {} answered twice by the identical server state carries the identical proof: the proof nonce is a function of the key state and the request, so a proof recorded before tag {} is punctured plus the post-puncture key state (which still holds every input of that function) yield the tag key", a, a), json!({"tag": a}));
+        return;
+      }
+      cx.count("recorded_proofs_fresh", 1);
+    }
     if guard(|| s.puncture(a).is_ok()) != Ok(true) {
       cx.viol("C11/puncture-failed", format!("puncture({}) failed on a fresh server", a), json!({"input": a}));
       continue;
@@ -537,7 +552,7 @@ pub fn spec() -> PropSpec {
       },
       Check {
         name: "singles-and-siblings",
-        rule: "every single tag punctured from a fresh server, then its deepest-level sibling (tag ^ 0x80): full invariant incl. import checks",
+        rule: "every single tag punctured from a fresh server, then its deepest-level sibling (tag ^ 0x80): full invariant incl. import checks; for every 16th tag, before the puncture: the identical request answered twice carries two different proofs (a proof nonce that is a function of key state and request would make recorded proofs plus the post-puncture state give the tag key away)",
         gen: |_| (0..16u64).map(|i| json!({"lo": i * 16})).collect(),
         run: run_singles,
         min_counts: &[("states", 512)],
